@@ -71,6 +71,7 @@ func reportWho(w *World, r *Report, pkg, tname, fname string, allowed ...string)
 func runC15(c *Ctx, w *World, r *Report) {
 	names := []string{"bitmap.NewTailBitmap", "bitmap.(*TailBitmap).Compact", "bitmap.(*TailBitmap).Set", "bitmap.(*TailBitmap).Get", "bitmap.(*TailBitmap).Get1"}
 	fns, ok := requireFuncs(w, r, names...)
+	ReportGrowZero(w, r, "Words", "bitmap.(*TailBitmap).Set")
 	ReportTableWidth(w, r)
 	ReportScale(w, r, names...)
 	ReportPair(w, r, names...)
@@ -152,7 +153,9 @@ func runC15(c *Ctx, w *World, r *Report) {
 				}
 				// guards
 				gLen, gOnes := false, false
+				extraGuard := ""
 				for _, cd := range fa.Conds(st.Block()) {
+					recognised := false
 					D, op, ok := fa.CondRel(cd)
 					if ok {
 						// len(Words) > 0
@@ -164,6 +167,7 @@ func runC15(c *Ctx, w *World, r *Report) {
 										applyRel(&bd, D.K, op, "")
 										if coef == 1 && bd.HasLo && bd.Lo >= 1 {
 											gLen = true
+											recognised = true
 										}
 									}
 								}
@@ -188,10 +192,17 @@ func runC15(c *Ctx, w *World, r *Report) {
 									bad = fmt.Sprintf("a word is dropped when it equals %#x, not 2^64-1: a 0 bit can be passed", cv)
 								} else {
 									gOnes = true
+									recognised = true
 								}
 							}
 						}
 					}
+					if !recognised {
+						extraGuard = fmt.Sprintf("the branch at %s", w.InstrPos(cd.If))
+					}
+				}
+				if bad == "" && extraGuard != "" {
+					bad = "dropping a leading all-ones word additionally depends on " + extraGuard + ": Compact can stop while the first stored word is still all-ones (Offset then lags behind the first 0 bit)"
 				}
 				if bad == "" && !gLen {
 					bad = "advancing block is not guarded by len(Words) > 0"
@@ -268,6 +279,31 @@ func runC15(c *Ctx, w *World, r *Report) {
 		for _, ret := range returnsOf(fn) {
 			bd := fa.BoundsAt(ret.Block(), rel)
 			if !(bd.HasHi && bd.Hi <= -1) {
+				// a stored position: the answer comes from Words, unless the position is established to lie beyond the stored words
+				if !strings.HasSuffix(n, ".Set") && len(ret.Results) > 0 {
+					if _, isConst := constInt64(stripConv(ret.Results[0])); isConst {
+						beyond := false
+						for _, cd := range fa.Conds(ret.Block()) {
+							D, _, ok := fa.CondRel(cd)
+							if !ok {
+								continue
+							}
+							for atom := range D.T {
+								if cl, ok := asCall(fa.AtomValue(atom), "builtin len"); ok {
+									if _, f, ok := asFieldLoad(cl.Common().Args[0]); ok && f == "Words" {
+										b2 := fa.BoundsAt(ret.Block(), rel.Sub(linConst(0).addScaled(linAtom(atom), 64)))
+										if b2.HasLo && b2.Lo >= 0 {
+											beyond = true
+										}
+									}
+								}
+							}
+						}
+						if !beyond {
+							bad = fmt.Sprintf("a constant is returned at %s for a position at or above Offset that is not established to lie beyond the stored words (idx - Offset >= 64*len(Words)): a stored bit is answered without being read", w.InstrPos(ret))
+						}
+					}
+				}
 				continue
 			}
 			if bd.Hi != -1 {
